@@ -656,26 +656,26 @@ class VM:
         if t.startswith('PhantomData'): return Adt('PhantomData', 0, [])
         return UNINIT
 
-    def concretize(self, term):
+    def concretize(self, term, limit=8):
         """a symbolic scalar that must be concrete to proceed: fork over its feasible values (bounded)"""
         term = z3.simplify(term)
         if z3.is_bv_value(term): return term.as_long()
         dom = self.domains.get(term.get_id())
-        if dom is not None and len(dom) <= 8:
+        if dom is not None and len(dom) <= limit:
             vals = sorted(dom)
             if len(vals) == 1: return vals[0]
             c = self.choose([term == v for v in vals]); self.domains[term.get_id()] = {vals[c]}
             return vals[c]
         def enum():
             vals, extra = [], []
-            for _ in range(9):          # enumerate up to 8 feasible values
+            for _ in range(limit + 1):          # enumerate up to `limit` feasible values
                 r, m = self.check_sat(*extra)
                 if r != z3.sat: break
                 v = m.eval(term, model_completion=True); vals.append(v); extra.append(term != v)
             vals.sort(key=lambda v: v.as_long())
             return vals
         vals = self.memo(enum)
-        if len(vals) > 8: raise BoundExceeded(f'concretize: more than 8 feasible values for {term}')
+        if len(vals) > limit: raise BoundExceeded(f'concretize: more than {limit} feasible values for {term}')
         if not vals: raise Infeasible()
         c = self.choose([term == v for v in vals])
         return vals[c].as_long()
@@ -1234,7 +1234,9 @@ class VM:
             ci = tgt[1]; recv = args[0]
             while isinstance(recv, Ref): recv = self.ref_get(recv)
             if not isinstance(recv, (Adt, SymEnum)): raise Unmodelled(f'dyn dispatch on {recv!r}')
-            return self.call(f'<{recv.ty} as {ci.trait}>::{ci.method}', args, None, None, subst={})
+            ty = recv.ty
+            if ty == 'Box': ty = 'Box<' + getattr(self.ref_get(self.box_ptr(recv)), 'ty', '_') + '>'
+            return self.call(f'<{ty} as {ci.trait}>::{ci.method}', args, None, None, subst={})
         raise Unmodelled('unresolved callee: ' + callee)
 
 
